@@ -18,7 +18,11 @@ NUM = re.compile(r"\b(1\d\d\d)\b")
 TFF = re.compile(r"^tff\(([^,]+), (axiom|conjecture), (.*)\)\.$")
 
 
-def content(ext, m):
+def content(ext, m, variant=""):
+    if ext == "lp" and variant == "broken":      # does not parse
+        return f"out(X :- q(X), X != {m}.\n"
+    if ext == "lp" and variant == "heavy":       # many rules: much slower to translate than its neighbours
+        return f"out(X) :- q(X), X != {m}.\n:- q(7), q(8).\n" + "".join(f"h{i}(X, Y) :- q(X), q(Y), X != Y + {i}, not h{i + 1}(Y, X + {i}).\n" for i in range(60))
     if ext == "spec":
         return f"spec: forall X (out(X) <-> q(X) and X != {m}).\n"
     if ext == "ug":
@@ -40,9 +44,12 @@ class Conflict(Exception):
     pass
 
 
-def materialise(root, layout, names, markers):
-    """create the files of a layout below root; returns the argument paths"""
+def materialise(root, layout, names, markers, variants=None, broken=None):
+    """create the files of a layout below root; returns the argument paths.  variants: ordinal of an .lp file (in creation order) ->
+    content variant; the paths of unparsable files are appended to `broken`"""
     args = []
+    variants = variants or {}
+    nlp = [0]
 
     def put(item, d, prefix):
         name = names[item["n"] - 1]
@@ -57,8 +64,14 @@ def materialise(root, layout, names, markers):
                 raise Conflict()
             if path not in markers:
                 markers[path] = 1001 + len(markers)
+            var = ""
+            if ext_of(name) == "lp":
+                var = variants.get(nlp[0], "")
+                nlp[0] += 1
+                if var == "broken" and broken is not None:
+                    broken.append(list(path))
             with open(p, "w") as f:
-                f.write(content(ext_of(name), markers[path]))
+                f.write(content(ext_of(name), markers[path], var))
             return p
         if os.path.exists(p):
             raise Conflict()      # the same directory given twice (possibly with other entries)
@@ -173,6 +186,36 @@ def run_C20(ctx):
             recs.append(rec)
             raw[rec["id"]] = {"args": [os.path.relpath(a, root) for a in args], "stderr": err,
                               "files": {"/".join(names[i - 1] for i in p): mk for p, mk in markers.items()}}
+    # the role of a file does not depend on its CONTENT: the same layouts with one .lp file unparsable or much heavier than the others
+    PATTERNS = [{0: "broken"}, {1: "broken"}, {2: "broken"}, {0: "heavy"}, {1: "heavy"}]
+    nvar = 0
+    for ci, c in enumerate(vals):
+        if nvar >= (60 if ctx.quick() else 1200):
+            break
+        for mode in ("strong", "external"):
+            pat = PATTERNS[(ci + (mode == "strong")) % len(PATTERNS)]
+            root = ctx.path("lay")
+            shutil.rmtree(root, ignore_errors=True)
+            os.makedirs(root)
+            markers, broken = {}, []
+            try:
+                args = materialise(root, c["layout"], names, markers, pat, broken)
+            except Conflict:
+                continue
+            nlp = len([p for p in markers if ext_of(names[p[-1] - 1]) == "lp"])
+            if nlp <= max(pat):
+                continue
+            reps = 3 if "heavy" in pat.values() else 1     # a dependence on timing need not show in one run
+            for rep in range(reps):
+                obs, sig, err = observe(V.ANTHEM, mode, args, ctx.path("obs"), markers, names)
+                rec = {"id": f"{c['id']}/{mode}/v{ci % len(PATTERNS)}r{rep}", "mode": mode, "layout": c["layout"], "obs": obs, "sig": sig, "swapped": False,
+                       "swaplayout": [], "obsswap": {"error": True}, "sigswap": {"fwd": "", "bwd": ""}, "broken": broken}
+                recs.append(rec)
+                nvar += 1
+                raw[rec["id"]] = {"args": [os.path.relpath(a, root) for a in args], "stderr": err, "content_variants": pat,
+                                  "files": {"/".join(names[i - 1] for i in p): mk for p, mk in markers.items()}}
+    for r in recs:
+        r.setdefault("broken", [])
     tr = ctx.path("files-trace.ndjson")
     with open(tr, "w") as f:
         for r in recs:
@@ -198,12 +241,14 @@ def run_C20(ctx):
     coverage = {
         "states": dist, "transitions": gen, "traces_validated_against_impl": len(recs),
         "evaluations": len(recs), "distinct_nontrivial": len({json.dumps([r["mode"], r["layout"]]) for r in ok_runs}),
-        "layouts": len(vals), "layouts_skipped_conflicting_paths": conflicts, "runs_accepted_by_anthem": len(ok_runs),
+        "layouts": len(vals), "layouts_skipped_conflicting_paths": conflicts, "runs_with_content_variants": nvar, "runs_accepted_by_anthem": len(ok_runs),
         "runs_refused": len(recs) - len(ok_runs), "swap_pairs": len([r for r in recs if r["swapped"]]), "distinct_runs": len(distinct),
         "rule": "design: every argument list of <= 3 items over 12 item shapes (files of all kinds, nested directories, a missing path): the "
                 "walk loop equals the declarative walk, swap and move properties; runs: layouts derived by TLC (spec/FilesGen.tla, <= 5 arguments, "
                 "directories nested two deep, adversarial names) materialised on disk with one marker numeral per file, strong and external mode; "
-                "observed = which marker occurs in axioms / conjectures of the forward problems; non-trivial = anthem accepted the layout",
+                "observed = which marker occurs in axioms / conjectures of the forward problems; the same layouts again with one .lp file "
+                "unparsable (an error is expected iff Files.tla gives that file a used role) or 60 rules heavier than its neighbours (roles unchanged, "
+                "3 repetitions); non-trivial = anthem accepted the layout",
         "samples": [{"trace": r, "raw": raw[r["id"]]} for r in ok_runs[:3]], "exhaustive": False,
     }
     return V.finish(ctx, "model_checking", coverage, violations, [
